@@ -17,7 +17,11 @@ REF = {"J": "oj.Parse", "S": "sen.Parse", "J~S": "oj.Parse"}
 REFM = {"J": "oj.Parse+cb", "S": "sen.Parse+cb"}
 
 
-def chunk_class(api):
+def chunk_class(api, multibuf=False):
+    # an input longer than the 4096-byte read buffer is split at the refill boundary even when the reader hands
+    # everything over at once: for the reader variants that is a chunked read
+    if multibuf and ("Reader" in api or "Load" in api):
+        return api.split("@", 1)[0] + "@chunked"
     if "@" not in api:
         return api
     base, ch = api.split("@", 1)
@@ -26,12 +30,12 @@ def chunk_class(api):
     return base + "@chunked"
 
 
-def deviations(b):
+def deviations(b, multibuf=False):
     """[(api class, locus)] for every front-end class that left the reference group of its family."""
     fam = b["fam"]
     gs = b["gs"]
     if b["kind"] == "panic":
-        return [(chunk_class(a), "(panic)") for g in gs for a in g["as"]]
+        return [(chunk_class(a, multibuf), "(panic)") for g in gs for a in g["as"]]
     ref = (REFM if b["kind"] == "disagree-multi" else REF).get(fam, "oj.Parse")
     refg = [g for g in gs if ref in g["as"]]
     refg = refg[0] if refg else max(gs, key=lambda g: len(g["as"]))
@@ -46,7 +50,7 @@ def deviations(b):
         else:
             what = "value:" + str(b.get("leaf", "?"))
         for a in g["as"]:
-            out.add((chunk_class(a), "(%s,%s)" % (fam, what)))
+            out.add((chunk_class(a, multibuf), "(%s,%s)" % (fam, what)))
     return sorted(out)
 
 
@@ -77,7 +81,7 @@ def judge(ctx, cases):
         src = case.get("src", "?")
         if case["b"][:1] == [239] and case["b"][1:3] != [187, 191]:
             src = "0xEF-not-BOM"       # the statement leaves this input class open for the JSON front-ends; SEN reads it as a token
-        for api, loc in deviations(b):
+        for api, loc in deviations(b, case.get("pad", 0) + len(case["b"]) > 4096):
             loc = loc[:-1] + "," + src + ")"
             recs.append({"api": api, "kind": b["kind"], "locus": loc, "witness": wit, "case": case,
                          "detail": {"groups": b["gs"]}})
